@@ -4,8 +4,9 @@ package main
 // reflect.Value / reflect.Type can have under the facts of the current path.
 
 import (
-	"strings"
+	"fmt"
 	"go/types"
+	"strings"
 
 	"golang.org/x/tools/go/ssa"
 )
@@ -236,6 +237,40 @@ func (ke *kindEnv) kinds(st *pstate, a *Sym) KindSet {
 	for _, rel := range st.symeq[key] {
 		if rel.eq && rel.other.K == sKind && rel.other.A.Key() != a.Key() {
 			k &= ke.kinds(st, rel.other.A)
+		}
+	}
+	// membership in a set of kinds written as a bit mask: M & (1 << kind) != 0 (or == 0), M a constant of the path
+	maskOf := func(f string) (KindSet, bool) {
+		// cmp(OP,bin(&,const(M),bin(<<,const(1),KEY)),const(0))
+		pre, suf := "bin(&,const(", "),bin(<<,const(1),"+key+"))"
+		i := strings.Index(f, pre)
+		if i < 0 || !strings.Contains(f, suf) || !strings.HasSuffix(f, ",const(0))") {
+			return 0, false
+		}
+		rest := f[i+len(pre):]
+		j := strings.Index(rest, ")")
+		if j < 0 {
+			return 0, false
+		}
+		var m uint64
+		if _, err := fmt.Sscanf(rest[:j], "%d", &m); err != nil {
+			return 0, false
+		}
+		return KindSet(m) & ksAll, true
+	}
+	for f, v := range st.facts {
+		if !strings.Contains(f, key) || !strings.Contains(f, "bin(<<,") {
+			continue
+		}
+		m, ok := maskOf(f)
+		if !ok {
+			continue
+		}
+		switch {
+		case strings.HasPrefix(f, "cmp(!=,") && v, strings.HasPrefix(f, "cmp(==,") && !v:
+			k &= m
+		case strings.HasPrefix(f, "cmp(!=,") && !v, strings.HasPrefix(f, "cmp(==,") && v:
+			k &^= m
 		}
 	}
 	return k
